@@ -7,6 +7,8 @@ From Coq Require Import ZArith List Bool String Reals.
 From GMGP Require Import Options Scalar ScalarR InterpDefs StencilDefs StencilProofs2.
 From GMGPGen Require Import OptionsGen.
 Import ListNotations.
+From GMGP Require GridGenDefs GridGenTie.
+From GMGPGen Require LevelsGen.
 
 (* (a) accepted integers are exactly the enumerators; the command line lets through only those *)
 Theorem C20_accepted_enums_in_range : forallb row_ok gen_options = true.
@@ -41,3 +43,13 @@ Proof. exact take_columns_in_grid. Qed.
 Print Assumptions C20_accepted_enums_in_range.
 Print Assumptions C20_factor_defined.
 Print Assumptions C20_take_columns_in_grid.
+
+(* (a') the level count as the source defines it (translator T9): a cap of 1 is rejected whatever the grid, every
+   accepted count is at least 2 and respects the cap; non-coarsenable grids are rejected (count below 2) *)
+Theorem C20_level_cap_respected : forall nr nt maxl : Z,
+  (maxl = 1%Z -> LevelsGen.gen_choose_levels nr nt maxl = None) /\
+  (forall L, LevelsGen.gen_choose_levels nr nt maxl = Some L -> (2 <= L)%Z /\ ((0 < maxl)%Z -> (L <= maxl)%Z)).
+Proof. exact GridGenTie.gen_level_cap_respected. Qed.
+Example C20_non_coarsenable_rejected :
+  LevelsGen.gen_choose_levels 4 8 (-1) = None /\ LevelsGen.gen_choose_levels 9 4 (-1) = None /\ LevelsGen.gen_choose_levels 9 8 (-1) = Some 2%Z.
+Proof. vm_compute. repeat split. Qed.
